@@ -83,18 +83,21 @@ class Recorder(AgentBasedSimulation):
         self.calls = []
         self.resps = []
 
-    def _do(self, call, thunk, kind, agent_id=None):
+    def _do(self, call, thunk, kind, agent_id=None, arg=None):
         n0 = len(self.inner.ilog)
         try:
             val = thunk()
-            r = self.codec.enc_resp(self.w, kind, agent_id, val)
+            r = self.codec.enc_resp(self.w, kind, agent_id, val, arg)
             err = None
         except TimeoutError:
             raise
         except Exception as e:  # recorded, then re-raised to the manager
             val, r, err = None, exc_resp(e), e
         self.calls.append(call)
-        self.resps.append([r, [list(x) for x in self.inner.ilog[n0:]]])
+        item = [r, [list(x) for x in self.inner.ilog[n0:]]]
+        if hasattr(self.codec, "snapshot"):
+            item += self.codec.snapshot(self.w)      # e.g. the wrapper's tables after the call
+        self.resps.append(item)
         if err is not None:
             raise err
         return val
@@ -104,7 +107,7 @@ class Recorder(AgentBasedSimulation):
 
     def step(self, action_dict, **kw):
         return self._do([1, self.codec.enc_actions(self.w, action_dict)],
-                        lambda: self.w.step(action_dict, **kw), 1)
+                        lambda: self.w.step(action_dict, **kw), 1, None, action_dict)
 
     def render(self, **kw):
         pass
